@@ -10,8 +10,8 @@ PROPS = [f"C{i:02d}" for i in range(1, 21)]
 def run(seed):
     mp = os.path.join(HERE, 'seeded', seed, 'meta.json')
     meta = json.load(open(mp))
-    if meta.get('status') == 'obsolete':
-        return seed, 'obsolete'
+    if meta.get('status') in ('obsolete', 'outside the stated property'):
+        return seed, meta.get('status')
     d = tempfile.mkdtemp(prefix='verif-rs-', dir='/dev/shm')
     try:
         shutil.copytree('/repo/torchtree', os.path.join(d, 'torchtree'), ignore=shutil.ignore_patterns('__pycache__'))
